@@ -94,10 +94,41 @@ def rename_params(root: pathlib.Path) -> int:
     return tot
 
 
+def logic_rewrites(root: pathlib.Path) -> int:
+    """`if c: A else: B` -> `if not (c): B else: A` (only when B is not an elif chain head, to keep chains readable for the reader of a
+    report; still equivalent), `x is not None` -> `not (x is None)`, `a not in b` -> `not (a in b)`"""
+    n = 0
+
+    class R(ast.NodeTransformer):
+        def visit_If(self, node: ast.If):
+            nonlocal n
+            self.generic_visit(node)
+            if node.orelse and not (len(node.orelse) == 1 and isinstance(node.orelse[0], ast.If)) and not (len(node.body) == 1 and isinstance(node.body[0], ast.If)):
+                n += 1
+                return ast.copy_location(ast.If(ast.UnaryOp(ast.Not(), node.test), node.orelse, node.body), node)
+            return node
+
+        def visit_Compare(self, node: ast.Compare):
+            nonlocal n
+            self.generic_visit(node)
+            if len(node.ops) == 1 and isinstance(node.ops[0], (ast.IsNot, ast.NotIn)):  # `!=` is left alone: on numpy arrays `not (a == b)` is not `a != b`
+                pos = {ast.IsNot: ast.Is, ast.NotIn: ast.In}[type(node.ops[0])]()
+                n += 1
+                return ast.copy_location(ast.UnaryOp(ast.Not(), ast.Compare(node.left, [pos], node.comparators)), node)
+            return node
+
+    for p in root.rglob("*.py"):
+        t = R().visit(ast.parse(p.read_text()))
+        out = ast.unparse(ast.fix_missing_locations(t))
+        compile(out, str(p), "exec")
+        p.write_text(out + "\n")
+    return n
+
+
 def main() -> int:
     props = sys.argv[1:] or [f"C{i:02d}" for i in range(1, 21)]
     worst = 0
-    for label, steps in (("unparse", [unparse_all]), ("rename", [rename_locals, rename_params])):
+    for label, steps in (("unparse", [unparse_all]), ("rename", [rename_locals, rename_params]), ("logic", [logic_rewrites])):
         tmp = pathlib.Path(tempfile.mkdtemp(prefix="verif_robust_"))
         try:
             subprocess.run(f"git -C {REPO} archive HEAD | tar -x -C {tmp}", shell=True, check=True)
